@@ -122,10 +122,15 @@ def confirm_witness(n, name, ops):
         if tuple(sorted(qs)) not in es:
             raise fw.HarnessError("witness violates the coupling table")
     qc = libif.build_circuit(n, ops)
-    out = L.sc.compress_preparation_circuit(qc, name)
-    out_ops = libif.ops_of(out)
+    try:
+        out = L.sc.compress_preparation_circuit(qc, name)
+        out_ops = libif.ops_of(out)
+        psi_d = dense.run(out_ops, n)
+    except dense.UnknownGate:
+        raise
+    except Exception:  # noqa: BLE001   (the library cannot compress a valid circuit: C07's business; the gap is then shown by the
+        return cost.twoq_count(ops), -1, 0.0, []      # delivered / table circuit against the validated witness alone)
     psi_w = dense.run([(o[0], tuple(o[1]), ()) for o in ops], n)
-    psi_d = dense.run(out_ops, n)
     return cost.twoq_count(ops), cost.twoq_count(out_ops), dense.fidelity(psi_w, psi_d), out_ops
 
 
